@@ -261,6 +261,9 @@ def mkSa (n : Nat) (beta : α) (R : List (Ext α)) (Q : List (List α)) (sInd aI
   let L := Q.length
   if R.length ≠ L then .error "ValueError:shape"
   else if ¬ (sInd.length = L ∧ aInd.length = L) then .error "ValueError:length"
+  else if ¬ hasSortedSa sInd aInd ∧ sInd.any (fun s => decide (n ≤ s)) then
+    -- `sp.coo_matrix(..., shape=(n, max a + 1))` refuses a row index `≥ n`
+    .error "ValueError:coo"
   else
     let d : SaDDP α :=
       if hasSortedSa sInd aInd then
@@ -418,6 +421,16 @@ def gaussJordan (A : List (List α)) (b : List α) : Option (List α) :=
   let aug := List.zipWith (fun r bi => r ++ [bi]) A b
   ((List.range n).foldl (gjStep n) (some aug)).map fun rows => rows.map fun r => r.getD n 0
 
+/-- `A x` (rows of `A` dotted with `x`) -/
+def mulVec [Add α] (A : List (List α)) (x : List α) : List α := A.map fun r => dot r x
+
+/-- the driver's `solve`: Gauss–Jordan elimination whose answer is **checked**
+    (`A x == b` exactly) before it is returned -/
+def solveChecked [Add α] (A : List (List α)) (b : List α) : Option (List α) :=
+  match gaussJordan A b with
+  | some x => if x.length == A.length && mulVec A x == b then some x else none
+  | none => none
+
 end gj
 
 /-! ### both forms under one type; backward induction -/
@@ -565,7 +578,7 @@ def runOp (op : String) (r : List String) (d : DDP Rat) : String :=
     | _, _ => "bad-op"
   | "evalpol" =>
     match kvNats r "sigma" with
-    | some s => showExcept (showList showRat) (evalPolicyOf gaussJordan d.beta (d.rqSigma s))
+    | some s => showExcept (showList showRat) (evalPolicyOf solveChecked d.beta (d.rqSigma s))
     | none => "bad-op"
   | "backward" =>
     match kvNat r "T", kv r "vterm" with
